@@ -226,13 +226,14 @@ theorem C07_stops_waiting_for_room (p : Pool) (m : Nat) (r : Req) (h : p.reqs[m]
     Quiet p (p.stepMeta m) ∧ ∃ r', (p.stepMeta m).reqs[m]? = some r' ∧ r'.outcome.isSome = true := by
   unfold stepMeta
   simp only [h, hs, hf]
-  unfold wakeWaitRoom
-  simp only
   have hcond : ((removeWaiterL m (p.modReq m fun x => { x with sched := false }).sem.waiters).1 == some WaitSt.cancelled ||
       r.mustCancel) = true := by
     rcases hc with hc | hc
     · simp [hc]
     · simp [modReq, hc]
+  unfold wakeWaitRoom
+  simp only [hcond, Bool.true_or, if_true]
+  unfold wakeWaitRoomCore
   simp only [hcond, if_true]
   unfold roomWaitCancelled
   simp only
@@ -273,12 +274,13 @@ theorem C07_stops_waiting_for_map_slot (p : Pool) (m : Nat) (r : Req) (h : p.req
     Quiet p (p.stepMeta m) ∧ ∃ r', (p.stepMeta m).reqs[m]? = some r' ∧ r'.outcome.isSome = true := by
   unfold stepMeta
   simp only [h, hs, hf]
-  unfold wakeWaitMapSem
-  simp only
   have hcond : ((removeWaiterL m r.mapSem.waiters).1 == some WaitSt.cancelled || r.mustCancel) = true := by
     rcases hc with hc | hc
     · simp [hc]
     · simp [hc]
+  unfold wakeWaitMapSem
+  simp only [hcond, Bool.true_or, if_true]
+  unfold wakeWaitMapSemCore
   simp only [hcond, if_true]
   generalize (if ((removeWaiterL m r.mapSem.waiters).1 == some WaitSt.granted) = true then _ else _ : Sem × Option Nat) = s2
   have q0 : Quiet p (((p.modReq m fun x => { x with sched := false }).modReq m fun x =>
